@@ -12,6 +12,19 @@ Theorem C16_frame : forall (deflate : N -> bytes -> bytes) l d,
   write_var_u32 (nlen d) ++ write_var_u32 (nlen (deflate l d)) ++ deflate l d.
 Proof. exact CompressProofs.C16_frame. Qed.
 
+(* the writer itself (since the repair of F18 it converts both lengths with try_into): for EVERY block and level it
+   either writes the frame with the true lengths or reports LengthTooLarge - exactly when a length does not fit 32
+   bits - so a frame never records a wrong length.  On the pinned tree a block of 2^32 + 5 bytes was framed as 5. *)
+Theorem C16_frame_true_lengths : forall (deflate : N -> bytes -> bytes) l d,
+  match write_compressed_checked deflate l d with
+  | Ok b => nlen d < 2^32 /\ nlen (deflate l d) < 2^32 /\
+            b = write_var_u32 (nlen d) ++ write_var_u32 (nlen (deflate l d)) ++ deflate l d /\
+            b = write_compressed deflate l d
+  | Err e => e = ELengthTooLarge /\ (2^32 <= nlen d \/ 2^32 <= nlen (deflate l d))
+  | Panic _ | Fuel => False
+  end.
+Proof. exact CompressProofs.C16_frame_checked. Qed.
+
 (* every content, every level: read back identical through any source that refines the list
    reader (SliceInput, OwnedInput, DeserializationContext do: C15), whatever follows the frame *)
 Theorem C16_roundtrip : forall (deflate : N -> bytes -> bytes) (inflate : bytes -> option bytes),
@@ -40,6 +53,7 @@ Theorem C16_reserve : forall (inflate : bytes -> option bytes) {S} (R : reader S
 Proof. exact CompressProofs.C16_reserve. Qed.
 
 Print Assumptions C16_frame.
+Print Assumptions C16_frame_true_lengths.
 Print Assumptions C16_roundtrip.
 Print Assumptions C16_truncated.
 Print Assumptions C16_reserve.
